@@ -15,7 +15,9 @@ import (
 	"crypto/sha256"
 	"crypto/sha512"
 	"fmt"
+	"reflect"
 	"runtime/debug"
+	"sort"
 
 	"github.com/cloudflare/circl/oprf"
 	"github.com/cloudflare/pat-go/tokens"
@@ -144,6 +146,7 @@ type Session struct {
 	Index     []byte // anonymous issuer origin id from the attester (type 3)
 	Done      bool
 	Hostile   bool // some fault other than benign ones touched this session
+	Stop      bool // hostile session injected mid-path: do not forward beyond the party under test
 	Meta      map[string]any
 }
 
@@ -754,7 +757,7 @@ func (w *World) handleAttReq(m *simnet.Msg, s *Session, o *Outcome, op string) {
 	})
 	w.Log.Add("att-verify s=%d m=%d err=%v", s.ID, m.ID, o.Err != nil)
 	w.emit(o)
-	if o.Err == nil {
+	if o.Err == nil && !s.Stop {
 		w.send(&simnet.Msg{Sess: s.ID, Kind: KIssReq, From: "attester", To: fmt.Sprintf("issuer3/%d", s.Iss), Payload: append([]byte(nil), m.Payload...),
 			Side: m.Side, Tag: w.tag(s.ID, KIssReq)})
 	}
@@ -771,7 +774,7 @@ func (w *World) handleIss3(m *simnet.Msg, s *Session, o *Outcome, op string) {
 	o.OK = o.Err == nil
 	w.Log.Add("evaluate3 s=%d m=%d err=%v out=%s", s.ID, m.ID, o.Err != nil, core.H(o.Out))
 	w.emit(o)
-	if o.Err == nil && o.Out != nil {
+	if o.Err == nil && o.Out != nil && !s.Stop {
 		side := append([][]byte{append([]byte(nil), o.Out2...)}, m.Side...)
 		w.send(&simnet.Msg{Sess: s.ID, Kind: KIssResp, From: m.To, To: "attester", Payload: append([]byte(nil), o.Out...), Side: side, Tag: w.tag(s.ID, KIssResp)})
 	}
@@ -829,3 +832,37 @@ func (a Adapter2) Type() uint16       { return a.I.Type() }
 
 var _ batched.Issuer = Adapter1{}
 var _ batched.Issuer = Adapter2{}
+
+// Fingerprint hashes the content of every cached ClientState (its fields are unexported, so
+// they are read through reflection).
+func (c *RecCache) Fingerprint() string {
+	h := sha256.New()
+	for _, id := range core.SortedKeys(c.M) {
+		fmt.Fprintf(h, "client %s\n", id)
+		v := reflect.ValueOf(c.M[id]).Elem()
+		for i := 0; i < v.NumField(); i++ {
+			f := v.Field(i)
+			if f.Kind() != reflect.Map {
+				continue
+			}
+			var lines []string
+			it := f.MapRange()
+			for it.Next() {
+				k, val := it.Key(), it.Value()
+				var vs string
+				switch val.Kind() {
+				case reflect.String:
+					vs = val.String()
+				case reflect.Int, reflect.Int64:
+					vs = fmt.Sprint(val.Int())
+				default:
+					vs = val.Kind().String()
+				}
+				lines = append(lines, k.String()+"="+vs)
+			}
+			sort.Strings(lines)
+			fmt.Fprintf(h, " %s %v\n", v.Type().Field(i).Name, lines)
+		}
+	}
+	return fmt.Sprintf("%x", h.Sum(nil)[:8])
+}
